@@ -1,11 +1,14 @@
 (* C09 driver: replays a history of the pending-call table through the extracted LTS of Model/Mux.v.
 
-   input : <cfg> <op> <op> ...        cfg = socket | udp | reverse
+   input : <cfg> <op> <op> ...        cfg = socket | udp | udp-old | reverse   (udp: store refuses an index held by a
+                                      pending call and the caller draws again, rpc/udp since 7acbe6f; udp-old: it overwrites)
      a <h> <dest> <idx>   caller h (harness handle) entered conn.Transport / InvokeContext and was seen with
                           index idx: LAlloc steps are taken until a caller with that index exists; callers
                           created on the way stay anonymous until their own 'a' arrives (concurrent callers
                           reach the log in any order, the counter is drawn in one order)
-     s <h>                LStore            -> s:<0|1>   1 = an entry with that index was pending (overwritten)
+     s <h>                LStore, repeated while the store is refused and the caller draws again
+                          -> s:<0|1>:<idx>:<n>   1 = an entry with that index was pending and has been overwritten;
+                             idx = the index it registered under; n = refused stores (redraws) before
      e <h>                LEnq
      ans <h>              LAnswer           the peer emits a reply to h's request
      stray <dest> <idx>   LStray
@@ -26,7 +29,7 @@ let run line =
   match split_ws line with
   | cfgname :: ops ->
     let c = match cfgname with
-      | "socket" -> Mux.cfg_socket | "udp" -> Mux.cfg_udp | "reverse" -> Mux.cfg_reverse
+      | "socket" -> Mux.cfg_socket | "udp" -> Mux.cfg_udp | "udp-old" -> Mux.cfg_udp_old | "reverse" -> Mux.cfg_reverse
       | s -> failwith ("cfg " ^ s) in
     let st = ref Mux.init in
     let out = Buffer.create 256 in
@@ -56,13 +59,19 @@ let run line =
         | None -> None) !live in
       live := Stdlib.List.map fst recs;
       { !st with Mux.callers = Stdlib.List.map (fun (m, cr) -> (z m, cr)) recs } in
+    (* the guards of Model/Mux.v at a registering LStore (and at an LEnq before registration), evaluated by the
+       model's own functions on the live part of the state *)
+    let check_guards m =
+      match Mux.c_find (z m) !st with
+      | Some cr ->
+          let rs = restricted () in
+          if not (Mux.others_harmless rs (z m) cr) then begin
+            if !reuse_ok then first_reuse := string_of_int (zi cr.Mux.cdraw);
+            reuse_ok := false end;
+          if not (Mux.others_near c rs (z m) cr) then window_ok := false
+      | None -> () in
     let alloc_one k dest =
       let l = Mux.LAlloc (z dest) in
-      let rs = restricted () in
-      if not (Mux.no_reuse_step c rs l) then begin
-        if !reuse_ok then first_reuse := string_of_int (zi (!st).Mux.counter + 1);
-        reuse_ok := false end;
-      if not (Mux.window_step c rs l) then window_ok := false;
       if step k "a" l then begin
         let m = zi (!st).Mux.counter in live := m :: !live; refresh m; Some m end else None in
     let rec go k = function
@@ -93,10 +102,26 @@ let run line =
           go (k + 1) r
       | "s" :: h :: r ->
           let m = id h in
-          let ow = match Mux.t_find (key_of m) (!st).Mux.pending with Some _ -> 1 | None -> 0 in
-          if step k "s" (Mux.LStore (z m)) then (refresh m; say (Printf.sprintf "s:%d" ow));
+          let rec attempt n =
+            if n > 40000 then failed := Some (Printf.sprintf "!%d:s-never-registers" k) else
+            match Mux.c_find (z m) !st with
+            | None -> failed := Some (Printf.sprintf "!%d:s" k)
+            | Some cr ->
+                let present = (match Mux.t_find cr.Mux.ckey (!st).Mux.pending with Some _ -> true | None -> false) in
+                let reg = Mux.registers c !st cr in
+                if reg then check_guards m;
+                if step k "s" (Mux.LStore (z m)) then begin
+                  refresh m;
+                  if reg then say (Printf.sprintf "s:%d:%d:%d" (if present then 1 else 0) (zi (snd cr.Mux.ckey)) n)
+                  else attempt (n + 1) end in
+          attempt 0;
           go (k + 1) r
-      | "e" :: h :: r -> if step k "e" (Mux.LEnq (z (id h))) then (refresh (id h); say "."); go (k + 1) r
+      | "e" :: h :: r ->
+          let m = id h in
+          (match Mux.c_find (z m) !st with
+           | Some cr when cr.Mux.cstat = Mux.SAlloc -> check_guards m
+           | _ -> ());
+          if step k "e" (Mux.LEnq (z m)) then (refresh m; say "."); go (k + 1) r
       | "ans" :: h :: r -> if step k "ans" (Mux.LAnswer (z (id h))) then say "."; go (k + 1) r
       | "f" :: h :: r -> if step k "f" (Mux.LForget (z (id h))) then say "."; go (k + 1) r
       | "stray" :: dest :: idx :: r ->
